@@ -33,6 +33,13 @@ Definition spec_split (s : str) : option (str * unit_) :=
 Definition in_size_lang (s : str) : bool :=
   str_eqb s (lit "0") || match spec_split s with Some _ => true | None => false end.
 
+(* the same language as a grammar; `denoted` is the positional value of  ip '.' fp  (fp may be empty) *)
+Inductive size_lang : str -> Prop :=
+| SL_zero : size_lang (lit "0")
+| SL_int : forall ip u, all_digits ip = true -> size_lang (ip ++ unit_str u)
+| SL_frac : forall ip fp u, all_digits ip = true -> all_digits fp = true ->
+                            size_lang (ip ++ 46 :: fp ++ unit_str u).
+
 (* value denoted by a number string *)
 Fixpoint digits_q (s : str) (acc : Q) : Q :=
   match s with [] => acc | c :: t => digits_q t (acc * 10 + inject_Z (c - 48))%Q end.
@@ -44,6 +51,8 @@ Definition number_q (s : str) : Q :=
   | [a; b] => (digits_q a 0 + frac_q b (1 # 10))%Q
   | _ => 0%Q
   end.
+
+Definition denoted (ip fp : str) : Q := (digits_q ip 0 + frac_q fp (1 # 10))%Q.
 
 Definition spec_parse (s : str) : option (Q * unit_) :=
   if str_eqb s (lit "0") then Some (0%Q, PX)
@@ -93,9 +102,54 @@ Definition spec_layout_eq (a b : layout) : bool :=
   && opt_eqb (fun p q => opt_eqb halign_eqb (al_h p) (al_h q) && opt_eqb valign_eqb (al_v p) (al_v q))
              (l_alignment a) (l_alignment b).
 
+(* the same, as propositions: equality of all geometric components (value as a number, unit) *)
+Definition size_equiv (a b : size) : Prop := (s_val a == s_val b)%Q /\ s_unit a = s_unit b.
+Definition point_equiv (a b : point) : Prop := size_equiv (p_x a) (p_x b) /\ size_equiv (p_y a) (p_y b).
+Definition stretch_equiv (a b : stretch) : Prop := size_equiv (st_h a) (st_h b) /\ size_equiv (st_v a) (st_v b).
+Definition padding_equiv (a b : padding) : Prop :=
+  size_equiv (pd_before a) (pd_before b) /\ size_equiv (pd_after a) (pd_after b)
+  /\ size_equiv (pd_start a) (pd_start b) /\ size_equiv (pd_end a) (pd_end b).
+Definition alignment_equiv (a b : alignment) : Prop := al_h a = al_h b /\ al_v a = al_v b.
+Definition opt_rel {A} (R : A -> A -> Prop) (a b : option A) : Prop :=
+  match a, b with None, None => True | Some x, Some y => R x y | _, _ => False end.
+(* webvtt_positioning is not a geometric component *)
+Definition layout_equiv (a b : layout) : Prop :=
+  opt_rel point_equiv (l_origin a) (l_origin b) /\ opt_rel stretch_equiv (l_extent a) (l_extent b)
+  /\ opt_rel padding_equiv (l_padding a) (l_padding b) /\ opt_rel alignment_equiv (l_alignment a) (l_alignment b).
+
+Definition gval_equiv (a b : gval) : Prop :=
+  match a, b with
+  | GSize x, GSize y => size_equiv x y
+  | GPoint x, GPoint y => point_equiv x y
+  | GStretch x, GStretch y => stretch_equiv x y
+  | GPadding x, GPadding y => padding_equiv x y
+  | GAlign x, GAlign y => alignment_equiv x y
+  | GLayout x, GLayout y => layout_equiv x y
+  | _, _ => False
+  end.
+
 (* obs: (a == b, a != b, hash a == hash b) *)
 Definition ok_eq (a b : layout) (eq ne hash_eq : bool) : bool :=
   Bool.eqb eq (spec_layout_eq a b) && Bool.eqb ne (negb eq) && (negb eq || hash_eq).
+
+(* any two operands (C18 "behave as values"): equal exactly when of the same kind with equal components *)
+Definition spec_alignment_eq (p q : alignment) : bool :=
+  opt_eqb halign_eqb (al_h p) (al_h q) && opt_eqb valign_eqb (al_v p) (al_v q).
+Definition spec_gval_eq (a b : gval) : bool :=
+  match a, b with
+  | GSize x, GSize y => spec_size_eq x y
+  | GPoint x, GPoint y => spec_size_eq (p_x x) (p_x y) && spec_size_eq (p_y x) (p_y y)
+  | GStretch x, GStretch y => spec_size_eq (st_h x) (st_h y) && spec_size_eq (st_v x) (st_v y)
+  | GPadding x, GPadding y =>
+      spec_size_eq (pd_before x) (pd_before y) && spec_size_eq (pd_after x) (pd_after y)
+      && spec_size_eq (pd_start x) (pd_start y) && spec_size_eq (pd_end x) (pd_end y)
+  | GAlign x, GAlign y => spec_alignment_eq x y
+  | GLayout x, GLayout y => spec_layout_eq x y
+  | _, _ => false
+  end.
+(* obs: (bool(a == b), bool(a != b), hash a == hash b) *)
+Definition ok_eq_g (a b : gval) (eq ne hash_eq : bool) : bool :=
+  Bool.eqb eq (spec_gval_eq a b) && Bool.eqb ne (negb eq) && (negb eq || hash_eq).
 
 (* ---- padding shorthand in TTML order: before, end, after, start ---------------------------- *)
 Definition nth_size (l : list size) (n : nat) : option size := nth_error l n.
@@ -133,7 +187,7 @@ Definition q_close9 (a b : Q) : bool := Qle_bool (Qabs (a - b)%Q) (1 # 100000000
 (* expected outcome for one size on one axis: Some pct, or None = must be refused *)
 Definition ok_size_pct (a : size) (horizontal : bool) (dim : option Q) (obs : result size) : bool :=
   match spec_pct a horizontal (given dim), obs with
-  | Some v, Ok s => unit_eqb (s_unit s) PCT && q_close9 (s_val s) v
+  | Some v, Ok s => unit_eqb (s_unit s) PCT && q_rel_close (s_val s) v
   | None, Err ERelativization => true
   | _, _ => false
   end.
@@ -215,7 +269,7 @@ Fixpoint bools_eqb (a b : list bool) : bool :=
 Fixpoint sizes_close (exp : list Q) (got : list (size * bool)) : bool :=
   match exp, got with
   | [], [] => true
-  | v :: e', (s, _) :: g' => unit_eqb (s_unit s) PCT && q_close9 (s_val s) v && sizes_close e' g'
+  | v :: e', (s, _) :: g' => unit_eqb (s_unit s) PCT && q_rel_close (s_val s) v && sizes_close e' g'
   | _, _ => false
   end.
 
@@ -242,4 +296,26 @@ Definition ok_padding (s : str) (obs : result padding) : bool :=
       | _, _ => false
       end
   | None => match obs with Err ESyntax => true | _ => false end
+  end.
+
+(* Point / Stretch attribute: exactly two sizes separated by one space *)
+Definition ok_two (s : str) (obs : result (size * size)) : bool :=
+  match split_ch 32 s with
+  | [a; b] =>
+      match spec_parse a, spec_parse b, obs with
+      | Some (v1, u1), Some (v2, u2), Ok (x, y) =>
+          q_rel_close (s_val x) v1 && unit_eqb u1 (s_unit x) && q_rel_close (s_val y) v2 && unit_eqb u2 (s_unit y)
+      | Some _, Some _, _ => false
+      | _, _, Err ESyntax => true
+      | _, _, _ => false
+      end
+  | _ => match obs with Err (ECrash _) => true | _ => false end   (* unpacking fails: ValueError *)
+  end.
+
+(* ---- C13: printed lengths observed in writer output (binary64 noise allowed: 1/200 + 1e-9) -------------- *)
+Definition tol200 : Q := ((1 # 200) + (1 # 1000000000))%Q.
+Definition ok_print_tol (v : Q) (u : unit_) (printed : str) : bool :=
+  match spec_split printed with
+  | Some (num, u') => unit_eqb u u' && canonical_number num && Qle_bool (Qabs (number_q num - v)%Q) tol200
+  | None => false
   end.
